@@ -210,8 +210,7 @@ func c03GenCase(t *rapid.T) (*c03Case, []string) {
 	cs.pathsYAML = b.String()
 	cs.confDesc = strings.Join(cd, ",")
 
-	bias := append(append([]string(nil), cs.readNames...), pubNames[:8]...)
-	cs.users = c03GenUsers(t, bias, cs.digest())
+	cs.users = c03GenUsers(t, cs.readNames, pubNames[:10], cs.digest())
 	return cs, pubNames
 }
 
@@ -220,9 +219,10 @@ func c03GenAttempts(t *rapid.T, cs *c03Case, pubNames []string, n int) []*c03Att
 	allNames := append(append([]string(nil), cs.readNames...), pubNames...)
 	var out []*c03Attempt
 	nextPub := 0
+	kinds := rapid.Permutation(c03Kinds).Draw(t, "kindOrder") // every protocol x action appears in every batch
 	for i := 0; i < n; i++ {
 		l := fmt.Sprintf("a%d.", i)
-		k := rapid.SampledFrom(c03Kinds).Draw(t, l+"kind")
+		k := kinds[i%len(kinds)]
 		if k.publish && nextPub >= len(pubNames) {
 			k.publish = false // no unused publish path left
 		}
@@ -239,39 +239,110 @@ func c03GenAttempts(t *rapid.T, cs *c03Case, pubNames []string, n int) []*c03Att
 		default:
 			a.place = rapid.SampledFrom([]string{"basic", "basic", "bearer"}).Draw(t, l+"place")
 		}
-		ip := netip.MustParseAddr(a.ip)
 		strict := a.proto == "rtsp" && cs.digest()
+		cands := cs.readNames
 		if a.publish {
-			// look at the next few unused names and prefer (2 times out of 3) one that the presented credentials may publish to
-			window := pubNames[nextPub:min(nextPub+4, len(pubNames))]
-			pick := rapid.IntRange(0, len(window)-1).Draw(t, l+"pubName")
-			if rapid.IntRange(0, 2).Draw(t, l+"preferAdmitted") > 0 {
-				for j, nme := range window {
-					if c03Admits(cs.users, a.creds, ip, true, nme, strict) {
-						pick = j
-						break
+			cands = pubNames[nextPub:]
+		}
+
+		// aimed mode (2 out of 3): take one configured (user, permission) - possibly a permission for the OTHER
+		// action - and build the attempt around it: its credentials (or a near miss), an address its IP list admits,
+		// a path its pattern matches. Free mode: everything independent.
+		var aimedPath string
+		if rapid.IntRange(0, 2).Draw(t, l+"aimed") > 0 {
+			type up struct{ u, p int }
+			var ups []up
+			for ui, u := range cs.users {
+				for pi, p := range u.perms {
+					if p.action == "publish" || p.action == "read" {
+						ups = append(ups, up{ui, pi})
 					}
 				}
 			}
+			if len(ups) > 0 {
+				x := rapid.SampledFrom(ups).Draw(t, l+"aimAt")
+				u := cs.users[x.u]
+				pat := c03Perm{action: a.action(), path: u.perms[x.p].path} // the pattern, read as if it were for this action
+				var sat []string
+				for _, nme := range cands {
+					if c03PermGrants(pat, a.publish, nme) {
+						sat = append(sat, nme)
+					}
+				}
+				if len(sat) > 0 && rapid.IntRange(0, 4).Draw(t, l+"aimPath") > 0 {
+					aimedPath = rapid.SampledFrom(sat).Draw(t, l+"satPath")
+				}
+				if !u.anyUser {
+					switch rapid.IntRange(0, 5).Draw(t, l+"aimCreds") {
+					case 0:
+						a.creds, a.credK = c03Creds{true, u.name, u.pass + "x"}, "wrongpass"
+					case 1: // keep the independent draw
+					default:
+						pw := u.pass
+						if u.passEnc == "empty" {
+							pw = "whatever"
+						}
+						a.creds, a.credK = c03Creds{true, u.name, pw}, "right"
+					}
+				}
+				if len(u.nets) > 0 && rapid.IntRange(0, 3).Draw(t, l+"aimIP") > 0 {
+					for _, ipS := range ips {
+						for _, nt := range u.nets {
+							if c03NetContains(nt, netip.MustParseAddr(ipS)) {
+								a.ip = ipS
+							}
+						}
+					}
+				}
+			}
+		}
+		ip := netip.MustParseAddr(a.ip)
+
+		pick := rapid.IntRange(0, len(cands)-1).Draw(t, l+"path")
+		if aimedPath != "" {
+			for j, nme := range cands {
+				if nme == aimedPath {
+					pick = j
+				}
+			}
+		} else if rapid.IntRange(0, 2).Draw(t, l+"preferAdmitted") == 0 {
+			for j, nme := range cands {
+				if c03Admits(cs.users, a.creds, ip, a.publish, nme, strict) {
+					pick = j
+					break
+				}
+			}
+		}
+		if a.publish {
 			pubNames[nextPub], pubNames[nextPub+pick] = pubNames[nextPub+pick], pubNames[nextPub]
 			a.path = pubNames[nextPub]
 			nextPub++
 		} else {
-			a.path = rapid.SampledFrom(cs.readNames).Draw(t, l+"readName")
+			a.path = cands[pick]
 			if a.proto == "rtsp" {
-				a.variant = rapid.SampledFrom([]string{"normal", "normal", "direct", "cross"}).Draw(t, l+"variant")
+				a.variant = rapid.SampledFrom([]string{"normal", "normal", "direct", "cross", "cross"}).Draw(t, l+"variant")
 				if a.variant == "cross" {
-					// DESCRIBE a path these credentials may read (when there is one), SETUP another one
-					var cands []string
+					// DESCRIBE a path these credentials may read, then SETUP another one on the same connection -
+					// preferably one they may NOT read
+					var adm, rest []string
 					for _, o := range cs.readNames {
-						if o != a.path && c03Admits(cs.users, a.creds, ip, false, o, strict) {
-							cands = append(cands, o)
+						if c03Admits(cs.users, a.creds, ip, false, o, strict) {
+							adm = append(adm, o)
+						} else {
+							rest = append(rest, o)
 						}
 					}
-					if len(cands) == 0 {
+					switch {
+					case len(adm) > 0 && len(rest) > 0 && rapid.IntRange(0, 3).Draw(t, l+"crossForbidden") > 0:
+						a.other = rapid.SampledFrom(adm).Draw(t, l+"other")
+						a.path = rapid.SampledFrom(rest).Draw(t, l+"crossPath")
+					case len(adm) >= 2:
+						pm := rapid.Permutation(adm).Draw(t, l+"crossPair")
+						a.other, a.path = pm[0], pm[1]
+					case len(adm) == 1 && a.path != adm[0]:
+						a.other = adm[0]
+					default:
 						a.variant = "direct"
-					} else {
-						a.other = rapid.SampledFrom(cands).Draw(t, l+"other")
 					}
 				}
 			}
